@@ -6,6 +6,7 @@ import (
 	"fmt"
 	"github.com/cenkalti/backoff/v4"
 	"github.com/ovn-org/libovsdb/client"
+	"sort"
 	"strings"
 	"sync"
 	"testing"
@@ -14,6 +15,7 @@ import (
 	"github.com/ovn-org/libovsdb/cache"
 	"github.com/ovn-org/libovsdb/model"
 	"github.com/ovn-org/libovsdb/ovsdb"
+	"github.com/ovn-org/libovsdb/updates"
 	"pgregory.net/rapid"
 
 	"verif/pbt/kit"
@@ -899,7 +901,12 @@ func TestC14Partial(t *testing.T) {
 	rapid.Check(t, func(t *rapid.T) {
 		kase := c14PartialCase{Existing: rapid.IntRange(1, 4).Draw(t, "existing"), Good: rapid.IntRange(1, 8).Draw(t, "good"),
 			Bad:      rapid.SampledFrom([]string{"insert-of-a-cached-row", "modify-of-an-unknown-row", "delete-of-an-unknown-row"}).Draw(t, "bad"),
-			Encoding: rapid.SampledFrom([]string{"update2", "update"}).Draw(t, "encoding"), Handlers: rapid.IntRange(1, 2).Draw(t, "handlers")}
+			Encoding: rapid.SampledFrom([]string{"update2", "update", "one-aggregated-update"}).Draw(t, "encoding"), Handlers: rapid.IntRange(1, 2).Draw(t, "handlers")}
+		if kase.Encoding == "one-aggregated-update" {
+			// the rows are accumulated into one ModelUpdates and handed to ApplyCacheUpdate in one
+			// call (an accumulated update can name a row it has no earlier version of only as an insert)
+			kase.Bad = "insert-of-a-cached-row"
+		}
 		tc, err := cache.NewTableCache(w.DBModel, nil, nil)
 		if err != nil {
 			t.Fatal(err)
@@ -1006,10 +1013,24 @@ func TestC14Partial(t *testing.T) {
 			tu2[u] = &ovsdb.RowUpdate2{Delete: &ovsdb.Row{}}
 			tu1[u] = &ovsdb.RowUpdate{Old: &ovsdb.Row{}}
 		}
-		if kase.Encoding == "update2" {
+		switch kase.Encoding {
+		case "update2":
 			err = tc.Update2(nil, ovsdb.TableUpdates2{"T0": tu2})
-		} else {
+		case "update":
 			err = tc.Update(nil, ovsdb.TableUpdates{"T0": tu1})
+		default:
+			var agg updates.ModelUpdates
+			var us []string
+			for u := range tu2 {
+				us = append(us, u)
+			}
+			sort.Strings(us)
+			for _, u := range us {
+				if aerr := agg.AddRowUpdate2(w.DBModel, "T0", u, nil, *tu2[u]); aerr != nil {
+					t.Fatalf("harness: AddRowUpdate2(%s): %v", u, aerr)
+				}
+			}
+			err = tc.ApplyCacheUpdate(agg)
 		}
 		if err == nil {
 			// the cache took all of it (it may treat the odd row as harmless): then all of it counts
